@@ -330,6 +330,9 @@ fn superset_check(out: &mut Out, r: &mut Rng, f: &NetworkFilter, raw: &str, rule
         format!("https://{}/{}tail?x=1", host, pat),
         format!("https://www.{}/pre{}", host, pat),
         pat.clone(),
+        // a URL that starts and ends with the pattern text without being it
+        format!("{}?u={}", pat, pat),
+        format!("{}#{}", pat, pat),
         format!("https://{}", pat),
         format!("{}", pat.trim_start_matches('/')),
     ];
